@@ -688,6 +688,10 @@ func (f *File) Truncate(size int64) error {
 		return os.ErrPermission
 	}
 
+	if size < 0 {
+		return os.ErrInvalid
+	}
+
 	f.ioLock.Lock()
 	defer f.ioLock.Unlock()
 
@@ -701,14 +705,24 @@ func (f *File) Truncate(size int64) error {
 	}
 
 	if size > oldSize {
-		if err := f.writeBuf.Truncate(0); err != nil {
+		// Keep the existing content and the cursor; fill up with zeros at the end
+		pos, err := f.writeBuf.Seek(0, io.SeekCurrent)
+		if err != nil {
 			return err
 		}
 
-		for i := int64(0); i < size; i++ {
+		if _, err := f.writeBuf.Seek(0, io.SeekEnd); err != nil {
+			return err
+		}
+
+		for i := oldSize; i < size; i++ {
 			if _, err := f.writeBuf.Write(make([]byte, 1)); err != nil {
 				return err
 			}
+		}
+
+		if _, err := f.writeBuf.Seek(pos, io.SeekStart); err != nil {
+			return err
 		}
 
 		return nil
